@@ -116,6 +116,11 @@ def gen_trace(recipe):
       strategy = ['max_tpr', 'max_tnr'][c % 2]
       n_lim = int(rng.choice([5, 10]))
       other = int(rng.integers(3, 9))
+      big = bool(c % 3 == 2)
+      if big:
+        # LARGER constrained classes (20..60 pairs): k / n * n is not always k in floating point
+        n_lim = int(rng.integers(20, 61))
+        other = int(rng.integers(8, 25))
       # levels 1..n_lim: one constrained-class pair per level (so the constrained rate moves in steps of 1/n_lim),
       # pairs of the other class spread over the levels
       pairs, lab = [], []
@@ -129,6 +134,14 @@ def gen_trace(recipe):
         pairs.append((x, x + (lev + 0.5) * D)); lab.append(oth_label)
       j = int(rng.integers(1, 10))
       min_rate = j / 10.0
+      if big:
+        j = int(rng.integers(1, n_lim))
+        # half of the time a rate next to a count k for which (k / n) * n is NOT k in double precision (22 of the 41 class
+        # sizes 20..60 have one: 1/49*49 < 1, 15/22*22 < 15, ...): any count recovered from a rate by truncation is then off by one
+        odd = [k for k in range(1, n_lim) if (k / float(n_lim)) * n_lim != k]
+        if odd and rng.random() < 0.5:
+          j = n_lim - int(odd[int(rng.integers(len(odd)))]) + 1
+        min_rate = j / float(n_lim)
       perm = rng.permutation(len(pairs))
       events.append(cal_event(est, np.array(pairs)[perm], np.array(lab)[perm], strategy, 1.0, min_rate))
       events[-1]['boundary'] = [n_lim, j]
